@@ -93,7 +93,10 @@ pub fn reachable_pool(rng: &mut Rng, steps: usize, out: &mut Out) -> Vec<Replica
         }
     }
     for nd in &nodes {
-        for v in nd.replicated_keys.values() {
+        // (sorted: the pool order decides later random picks, and a HashMap's order is per-process)
+        let mut kv: Vec<(&String, &ReplicatedValue)> = nd.replicated_keys.iter().collect();
+        kv.sort_by(|a, b| a.0.cmp(b.0));
+        for (_, v) in kv {
             pool.push(v.clone());
         }
     }
